@@ -6,6 +6,31 @@ V = os.path.dirname(os.path.dirname(os.path.abspath(__file__)))
 props = [json.loads(l) for l in open(os.path.join(V, "properties.jsonl"))]
 
 claimed = {
+ "C07": dict(
+   level="exploration", technique="property-based testing (rapid): device decorated with out-of-scope content; frame condition checked on the model after every executed command",
+   text="Generated pairs whose device side carries content outside Netspoc's scope; the protected set is computed by the harness from the property's definition (independently of the tool's needed/toDelete marking) and its text must be identical after every step of the emitted script executed on the model.",
+   note="Trusted: harness device models and the harness's reading of the scope rules (DESIGN App. C). Known finding F3 is set aside by signature and reported as KNOWN-FINDING.",
+   ref="DESIGN.md §3 C07"),
+ "C08": dict(
+   level="exploration", technique="property-based testing (rapid): every emitted command executed on strict device models that refuse dangling references, deletes of referenced objects, duplicate entries, wrong line numbers and wrong modes",
+   text="The scripts of generated pairs are executed command by command on strict executable device models; any refusal is a violation. The strictness rules are those stated by the property and are calibrated on the repository's own expected outputs.",
+   note="Trusted: the strictness rules of the models (DESIGN App. B), calibrated by TestCorpus* on the maintainers' expected outputs.",
+   ref="DESIGN.md §3 C08"),
+ "C10": dict(
+   level="fault_enumeration", technique="property-based testing (rapid) with crash-point enumeration: script cut after every single command (thorough) or drawn cuts (quick), tool re-run against the printed prefix state",
+   text="For generated pairs the emitted script is cut after k commands (every k in thorough, including between the halves of joined lines and inside sub-mode blocks); the real compare is re-run against the model's prefix state, its script executed, and the result must be equivalent to the target with an empty third compare.",
+   note="Trusted: harness device models; crash points are command boundaries of the model, not of a real session.",
+   ref="DESIGN.md §3 C10"),
+ "C14": dict(
+   level="exploration", technique="property-based testing (rapid): first-match packet evaluation of the bound ACL after every executed step over a representative packet universe",
+   text="For generated (old,new) ACL pairs with heavy overlap, the script is executed step by step (a joined line is one step) and after every step every packet of the universe on which old and new agree must get that verdict from the ACL currently bound. Known root causes F8 and F13 are set aside by signature.",
+   note="Trusted: harness ASA/IOS models and packet evaluator; packet universe is the product of representative points of the case's own vocabulary.",
+   ref="DESIGN.md §3 C14"),
+ "C16": dict(
+   level="exploration", technique="property-based testing (rapid): metamorphic repeat-run relation on byte-identical inputs with generated ties",
+   text="Generated inputs with forced ties are run 8 times in-process (Go randomises map iteration per range statement); stdout, stderr and status must be byte-identical.",
+   note="Trusted: nothing beyond the Go runtime's map-order randomisation as the source of schedule variation; fresh-process runs added in thorough.",
+   ref="DESIGN.md §3 C16"),
  "C01": dict(
    level="exploration", technique="property-based testing (rapid): generated (device,target) pairs, tool's script executed on an independent strict ASA model, compared with the target by name-free canonical form; round trip through a second compare",
    text="Generated-input search: for thousands (quick) to ~200k (thorough) generated ASA device/target pairs the emitted script is executed on an executable ASA model and the result must be canonically equal to the target, a second compare of the printed result must be empty, and 'unchanged' must imply equivalence. Exploration, not proof: it samples the pair space with generators built to hit renames, shared/duplicated groups, moves and left-overs.",
